@@ -509,6 +509,12 @@ class ExprMixin:
             lo = const_eval(sl.lower) if sl.lower is not None else None
             hi = const_eval(sl.upper) if sl.upper is not None else None
             return self.mk_tuple(items[lo:hi])
+        if isinstance(t, TAny):
+            lo = const_eval(sl.lower) if sl.lower is not None else None
+            hi = const_eval(sl.upper) if sl.upper is not None else None
+            r = self.any_op('slice', [base, lo, hi])
+            if r is not None:
+                return r
         if not (t is TBytes or isinstance(t, TList)):
             raise Unsupported('slice of %s' % t)
         n = py_len(base)
@@ -680,8 +686,17 @@ class ExprMixin:
         b = self.ev(node.right)
         return self.binop(node.op, a, b)
 
+    def any_op(self, op, args):
+        '''operations on opaque values: the contract suite may give them a meaning (callback 'any_op')'''
+        hook = self.spec.callbacks.get('any_op')
+        return hook(self, op, args) if hook is not None else None
+
     def binop(self, op, a, b):
         ta, tb = a.t, b.t
+        if isinstance(op, ast.Add) and isinstance(ta, TAny):
+            r = self.any_op('add', [a, b])
+            if r is not None:
+                return r
         if isinstance(op, ast.Div) and isinstance(ta, TPkt) and isinstance(tb, TPkt):
             return self.pkt_compose(a, b)
         if isinstance(op, ast.Div) and isinstance(ta, TPkt) and is_py(b, 'nopayload'):
